@@ -86,12 +86,14 @@ LITERALS = ['"plain"', '""', '"a""b"', '"a\\"b"', '"t\\tn\\nr\\rb\\\\q"', '"\\a\
             '"/* nor */"', "0x1f", "0XBEBADA", "0xffffffffffffffff", "0", "1", "9223372036854775807", "-9223372036854775807", "1.0", "3.1416", "314.16e-2",
             "0.31416E1", "34e1", ".314", "1e308", "1e-308", "5e-324", "0.1", "0.30000000000000004", "1.7976931348623157e308", "2.2250738585072014e-308",
             "9007199254740993.0", "123456789.123456789", "1e21", "1e22", "1.5e300", "100.0", "1e0", "true", "false", "on", "off", "null", "pi", "ee", "phi", "ii",
-            "2 + 3 * ii", "-1.5", "-0.0", "- 7", "1e5", "12345678901234567890.0"]
+            "2 + 3 * ii", "-1.5", "-0.0", "- 7", "1e5", "12345678901234567890.0",
+            # the lowest integer, however it is written
+            "0x8000000000000000", "9223372036854775808", "-9223372036854775807 - 1", "-(-9223372036854775807 - 1)", "0x8000000000000001"]
 
 
 MISC = [
     "a = 1, b = 2, c = a + b, print a b c;",
-    "let a = 1; let b = a; do nop; print a b;",
+    "let a = 1; let b = a; do a + b; nop; print a b;",
     "for i in 1 to 10 step 3 asc loop print i; end loop; for i in 10 to 1 step 2 desc loop print i; end loop;",
     "t = tab(3, 0); forall e in t desc loop e = 1; end loop; forall e in t asc loop print e; end loop;",
     'begin raise e1; exception when e1 then print "1" error@1; when e2 then print "2"; when others then print "o"; end;',
@@ -110,7 +112,7 @@ MISC = [
     "b = raw(3, 65); b.put(0, 66).concat(67).insert(0, 68).delete(1); print b.count() b.at(0);",
     # `do` before every shape of expression, print / put arguments that begin with a parenthesis after a name
     'x = 1; do (1 + 2); do "abc".concat("d"); do x; do (x); do -x; do tab(1, 1).count(); do x + 1; print x;',
-    'x = 1; y = 2; print (x) (-1); print x (y); put (x) (y) (x + y); print ""; print x - 1 (x) "s" (x);',
+    'x = 1; y = 2; print (x) (-1); print (x) (y); put (x) (y) (x + y); print ""; print x - 1 (x) "s" (x); put (x) (2 + 1) "\\n"; put (x + y) (x) (y - x) (y);',
     "x = null; x:integer; x = int(); y = num(); z = str(); w = raw(); v = bool(); u = tup(); t = tab(); print isnull(x) isnull(t);",
 ]
 
@@ -139,6 +141,18 @@ def corpus(tier):
         yield "literal", "", "v = %s; print v; w2 = v; print typeof(v);" % lit
     # every string of length <= 2 over the characters that have an escape, the two quotes, and characters that have none
     SCH = ["\\a", "\\b", "\\f", "\\n", "\\r", "\\t", "\\\\", '\\"', '""', "'", "a", "%", "\x01", "\x7f", "\u00e9"]
+    # arguments of print / put are separated by blanks only: every shape of argument before every shape of enclosed argument
+    A1 = ["x", "-x", "x + y", "1 + x", "x * y", "not b", "t.at(0)", "r@1", '"s"', "2", "x ** y", "t.count() + x", "b and b", "- (x)", "ii * x", "x == y", "pi"]
+    for kw in ("print", "put"):
+        for a in A1:
+            for bb in ("(y)", "(x + y)", "(-1)", "(b)", "((x))", "(r@1)", "(t.at(0))"):
+                yield "print-args", "", 'x = 1; y = 2; b = true; t = tab(1, 5); r = tup(1, 2); %s (%s) %s; print "|"; %s (%s) %s (%s) %s; print "";' % (kw, a, bb, kw, a, bb, a, bb)
+    # every byte value inside a constant (written raw in the source; NUL, LF, CR and the quote have their own spellings above)
+    for b in range(1, 256):
+        if b in (0x0a, 0x0d, 0x22, 0x5c):
+            continue
+        ch = bytes([b]).decode("latin-1")
+        yield "literal", "", 'v = "%s"; print strlen(v); w2 = "a%sb" + v; print w2;' % (ch, ch)
     for l in (0, 1, 2):
         for t in itertools.product(SCH, repeat=l):
             lit = '"' + "".join(t) + '"'
@@ -224,6 +238,9 @@ def check(case, res):
     k = len(st) - 7
     rt, oa, ob, da, db, fa, fb = st[k:k + 7]
     if rt.get("r") != "ok":
+        if m["kind"] in ("misc", "module", "seed", "for-order", "forall-order", "decl", "func-type", "nest", "nest-func", "errors", "print-args"):
+            # hand-written programs are meant to be valid: a rejected one exercises nothing
+            vs.append(Violation("harness:source-rejected:%s" % m["kind"], "the corpus program is not accepted: %s\n--- source: %s" % (rt.get("err"), m["text"][:300]), case))
         return vs, False     # the original text is not a valid program: outside the domain
     t1 = unhex(rt.get("t1", "")).decode("latin-1")
     kind = m["kind"]
